@@ -70,6 +70,25 @@ def classes(impl, G):
     out.append(('not a closed polyhedron', 'one face removed', lambda: ConvexPolyhedron(tuple(fl[:drop] + fl[drop + 1:]))))
     out.append(('not a closed polyhedron', 'a single face', lambda: ConvexPolyhedron((fl[0],))))
     out.append(('not a closed polyhedron', 'one face repeated', lambda: ConvexPolyhedron(tuple(fl + [fl[drop]]))))
+    out.append(('not a closed polyhedron', 'the same polygon twice (flat, V - E + F = 2)', lambda: ConvexPolyhedron((fl[drop], fl[drop]))))
+    out.append(('not a closed polyhedron', 'a polygon and its reverse (flat, V - E + F = 2)', lambda: ConvexPolyhedron((fl[drop], -fl[drop]))))
+    # degenerate under a NON-default tolerance: two points eps/100 apart while eps is 1e-6 / 1e-5 (restored afterwards)
+    big = R.choice([1e-6, 1e-5])
+    dl = big / 100
+
+    def under_eps(f):
+        def g():
+            g3.set_eps(big)
+            try:
+                return f()
+            finally:
+                g3.set_eps()
+        return g
+    pd = (float(p[0]) + dl, float(p[1]) - dl, float(p[2]))
+    out.append(('zero-length Line', 'Line(p, p+%g) at eps=%g' % (dl, big), under_eps(lambda: Line(P(p), Point(*pd)))))
+    out.append(('zero-length Line', 'Line(p, Vector(0,%g,0)) at eps=%g' % (-dl, big), under_eps(lambda: Line(P(p), Vector(0.0, -dl, 0.0)))))
+    out.append(('zero-length Segment', 'Segment(p, p+%g) at eps=%g' % (dl, big), under_eps(lambda: Segment(P(p), Point(*pd)))))
+    out.append(('zero-length HalfLine', 'HalfLine(p, p+%g) at eps=%g' % (dl, big), under_eps(lambda: HalfLine(P(p), Point(*pd)))))
     # circle family with n < 3
     nn = R.choice([-1, 0, 1, 2])
     rad = R.choice([0.5, 2.0, 7.0])
